@@ -28,7 +28,10 @@ class SourceModule(Object):
     @property
     def changed(self):
         # type: () -> bool
-        return self.mtime != getmtime(self.filename)
+        try:
+            return self.mtime != getmtime(self.filename)
+        except OSError:
+            return True
 
     @cached_property
     def scope(self):
